@@ -581,6 +581,9 @@ func TestC19(t *testing.T) {
 	core.Stress(r, core.Check[derivedCase]{Name: "derived-instances", Gen: func(s core.Source) derivedCase {
 		return derivedCase{Elem: core.Pick(s, []string{"int", "ints", "rec"}, "elem"), Seed: s.Choose(1000, "seed"), Rounds: 20 + s.Choose(60, "rounds")}
 	}, Exec: execDerived}, r.N(40, 600))
+	core.Stress(r, core.Check[convertedCase]{Name: "converted-instances", Gen: func(s core.Source) convertedCase {
+		return convertedCase{Seed: s.Choose(1000, "seed"), Size: s.Choose(12, "size"), Rounds: 10 + s.Choose(40, "rounds")}
+	}, Exec: execConverted}, r.N(30, 400))
 	nextType := 0
 	core.Stress(r, core.Check[firstFormatCase]{Name: "first-format", Gen: func(s core.Source) firstFormatCase {
 		c := firstFormatCase{Type: nextType % len(firstFormatTypes), Goroutines: 4 + s.Choose(13, "goroutines")}
